@@ -63,7 +63,7 @@ func realSx(r *Result) *sx.Node {
 
 // RunOne serves a history on the real code and on the model.
 func RunOne(cfg *Cfg, reqs []SReq) (*History, error) {
-	cont, err := Build(cfg)
+	cont, err := BuildFor(cfg, reqs)
 	if err != nil {
 		return nil, err
 	}
@@ -120,7 +120,12 @@ func Run(seed uint64, n int, o GenOpts, maxLen int) ([]*History, error) {
 	for i := 0; i < n; i++ {
 		r := base.Fork(uint64(i))
 		cfg := GenCfg(r, o)
-		cont, err := Build(cfg)
+		k := 1 + r.Intn(maxLen)
+		reqs := make([]SReq, 0, k)
+		for j := 0; j < k; j++ {
+			reqs = append(reqs, GenReq(r, o, cfg))
+		}
+		cont, err := BuildFor(cfg, reqs)
 		if err != nil {
 			if strings.Contains(err.Error(), "multiple registrations") {
 				SkippedBuild++
@@ -130,9 +135,8 @@ func Run(seed uint64, n int, o GenOpts, maxLen int) ([]*History, error) {
 		}
 		led := Install(cfg.Provider)
 		h := &History{Cfg: cfg}
-		k := 1 + r.Intn(maxLen)
 		for j := 0; j < k; j++ {
-			rq := GenReq(r, o, cfg)
+			rq := reqs[j]
 			h.Reqs = append(h.Reqs, rq)
 			h.Real = append(h.Real, Serve(cont, cfg, rq, led))
 		}
